@@ -25,6 +25,8 @@ type Tracer struct {
 	parent *Tracer
 	key    string
 	val    any
+	// Sync flushes after every event (used when the run is expected to crash the process)
+	Sync bool
 }
 
 // With returns a tracer that writes through t, adding the field key=val to every event.
@@ -62,6 +64,9 @@ func (t *Tracer) Emit(m map[string]any) {
 	if err := t.enc.Encode(m); err != nil {
 		panic(err)
 	}
+	if t.Sync {
+		t.w.Flush()
+	}
 }
 
 // Rotating trace output: a directory of files of bounded size, rotated only
@@ -73,6 +78,7 @@ type Rot struct {
 	cur   *Tracer
 	Total int
 	Files []string
+	Sync  bool
 }
 
 // Next returns the tracer to use for the next trace.
@@ -91,6 +97,7 @@ func (r *Rot) Next() *Tracer {
 		if err != nil {
 			panic(err)
 		}
+		t.Sync = r.Sync
 		r.cur = t
 		r.Files = append(r.Files, p)
 	}
